@@ -15,7 +15,7 @@ def gen_ops(rng, obs, nops):
         phase_spawn = k < 3 or rng.random() < 0.2
         kind = "spawn" if phase_spawn else rng.choice(
             ["spawn", "addpath", "addpath", "removeseg", "removeseg", "fit", "fit", "override", "override", "override",
-             "delete", "spawn_dummy", "improve", "improve", "greedy_end", "recompute", "consistent_end"])
+             "delete", "spawn_dummy", "improve", "improve", "greedy_end", "recompute", "consistent_end", "movetrans"])
         if kind in ("spawn", "addpath"):
             ty = rng.randrange(nt)
             chain = netobs.random_chain(rng, obs, ty, density=rng.choice([0.2, 0.4, 0.7]))
@@ -48,6 +48,8 @@ def gen_ops(rng, obs, nops):
             ops.append(["improve", [] if rng.random() < 0.4 else [rng.randrange(64) for _ in range(rng.choice([1, 2, 3]))]])
         elif kind == "recompute":
             ops.append(["recompute", [] if rng.random() < 0.5 else [rng.randrange(nt)]])
+        elif kind == "movetrans":
+            ops.append(["movetrans", rng.randrange(64), rng.randrange(8)])
         else:
             ops.append([kind])
     # dummy scenario: a vehicle becomes a dummy tour; single inner nodes and then the rest of the dummy tour are moved
@@ -93,6 +95,27 @@ def gen_ops(rng, obs, nops):
             if rng.random() < 0.5:
                 i = rng.randrange(8)
                 ops.append([rng.choice(["fit", "override"]), rng.randrange(64), i, rng.choice([0, 1, 2]), rng.randrange(64)])
+    # transition scenario: the optimiser's move (a vehicle to the end of another cycle, possibly emptying its own and
+    # refilling an empty one) stored with set_next_day_transitions, then operations that add / remove / update vehicles
+    # of those cycles (spawn reuses empty cycles; delete; improve)
+    if rng.random() < 0.6:
+        if rng.random() < 0.5:
+            ops.append(["recompute", []])
+        for _ in range(rng.choice([2, 3, 5])):
+            ops.append(["movetrans", rng.randrange(64), rng.randrange(6)])
+        for _ in range(rng.choice([1, 2, 3])):
+            r = rng.random()
+            if r < 0.5:
+                ty = rng.randrange(nt)
+                chain = netobs.random_chain(rng, obs, ty, density=rng.choice([0.2, 0.4]))
+                if chain:
+                    ops.append(["spawn", ty, chain])
+            elif r < 0.7:
+                ops.append(["delete", 2000 + rng.randrange(8)])
+            elif r < 0.85:
+                ops.append(["improve", [rng.randrange(64), rng.randrange(64)]])
+            else:
+                ops.append(["movetrans", rng.randrange(64), rng.randrange(6)])
     return ops
 
 
@@ -127,8 +150,8 @@ def opx_tokens(line):
         return "OPX %s improve %d %s" % (lab, len(vs), " ".join(vs))
     if kind in ("greedy_end", "consistent_end"):
         return "OPX %s enddepots" % lab
-    if kind == "recompute":
-        return "OPX %s recompute" % lab
+    if kind in ("recompute", "movetrans"):
+        return "OPX %s recompute" % lab   # transition-only operations: no activity, formation or depot changes
     return None
 
 
@@ -160,6 +183,8 @@ def enc_ops(ops):
             out += [k] + [str(x) for x in o[1:5]]
         elif k in ("improve", "recompute"):
             out += [k, str(len(o[1]))] + [str(x) for x in o[1]]
+        elif k == "movetrans":
+            out += [k, str(o[1]), str(o[2])]
         else:
             out += [k]
     return " ".join(out)
